@@ -112,6 +112,7 @@ pub fn structure(data: &[u8], quality: ECL, version: Version) -> [u8; 5430] {
     // let mut interleaved_data = vec![0; 0];
 
     let error = hardcode::get_polynomial(version, quality);
+    verif_point!("structure:generator");
 
     let [(g1_count, g1_size), (g2_count, g2_size)] = hardcode::ecc_to_groups(quality, version);
     let groups_count_total = g1_count + g2_count;
@@ -123,6 +124,7 @@ pub fn structure(data: &[u8], quality: ECL, version: Version) -> [u8; 5430] {
     for i in 0..g1_count {
         let start_idx = i * g1_size;
         let division = polynomials::division(&data[start_idx..start_idx + g1_size], error);
+        verif_point!("structure:g1_divided");
 
         for j in 0..error.len() - 1 {
             interleaved_data[start_error_idx + j * groups_count_total + i] =
@@ -133,6 +135,7 @@ pub fn structure(data: &[u8], quality: ECL, version: Version) -> [u8; 5430] {
     for i in 0..g2_count {
         let start_idx = g1_size * g1_count + i * g2_size;
         let division = polynomials::division(&data[start_idx..start_idx + g2_size], error);
+        verif_point!("structure:g2_divided");
 
         for j in 0..error.len() - 1 {
             interleaved_data[start_error_idx + j * groups_count_total + i + g1_count] =
@@ -141,6 +144,7 @@ pub fn structure(data: &[u8], quality: ECL, version: Version) -> [u8; 5430] {
     }
 
     let mut push_idx = 0;
+    verif_point!("structure:ecc_done");
     let max = core::cmp::max(g1_size, g2_size);
 
     for i in 0..max {
@@ -160,5 +164,6 @@ pub fn structure(data: &[u8], quality: ECL, version: Version) -> [u8; 5430] {
         }
     }
 
+    verif_point!("structure:interleaved");
     interleaved_data
 }
